@@ -29,6 +29,8 @@ fn upload(rt: Arc<ThreadPool>, cas: std::path::PathBuf, bytes: Vec<u8>) -> (usiz
 #[test]
 fn staged_shards_are_uploaded_even_when_the_last_flush_is_empty() {
     std::env::set_var("HF_XET_MDB_SHARD_MIN_TARGET_SIZE", "1");
+    // small xorbs: the file cuts several xorbs mid-file, each flushed into a staged shard that holds xorb records only
+    std::env::set_var("HF_XET_MAX_XORB_BYTES", "131072");
     let tmp = tempfile::tempdir().unwrap();
     let cas = tmp.path().join("cas");
     let rt = Arc::new(ThreadPool::new().unwrap());
